@@ -112,6 +112,33 @@ func propSpecs() map[string]*PropSpec {
 			Assume: commonAssume,
 		},
 		{
+			ID: "C08", Sub: "spg", Level: "model_checking",
+			Harnesses: []HSpec{
+				{Name: "H08", Quick: P{"k": 2, "b": 2, "L": 3}, Thorough: P{"k": 2, "b": 3, "L": 3}, Reach: []string{"computed", "something-dropped", "uncapitalisable-word"}},
+				{Name: "H08", Label: "concrete-lists-all-orders", Quick: P{"concrete": 1, "three": 0, "maxpermute": 3, "L": 3}, Thorough: P{"concrete": 1, "three": 1, "maxpermute": 3, "L": 4}, Reach: []string{"computed", "something-dropped", "uncapitalisable-word"}},
+			},
+			Bounds: map[string]string{
+				"H08":     "symbolic run: lists of 1..k words of 1..b symbolic printable-ASCII bytes (quick k=2,b=2; thorough k=2,b=3), built twice from the same input and once from a reversed-and-repeated copy, every map iteration order inside NewWordList a choice point; concrete run: twelve lists with twins, caseless, multi-part, leading-punctuation and non-ASCII words, every order for up to 3 map entries (insertion and reverse above); Length 1..L, the five schemes and an unknown one, separator none / SFDigits1",
+				"outside": "lists of more than 2 symbolic words or more than 5 concrete words; iteration orders of maps with more than 3 entries other than insertion order and its reverse; log2 is the native math.Log2",
+			},
+			Assume: append([]string{"strings.Title on symbolic bytes is modelled for ASCII (byte i is upper-cased iff it is a..z and byte i-1 is absent or not a letter, digit or underscore); on concrete words the native function is used"}, commonAssume...),
+		},
+		{
+			ID: "C10", Sub: "spg", Level: "model_checking",
+			Harnesses: []HSpec{
+				{Name: "H10", Quick: P{"k": 2, "b": 2}, Thorough: P{"k": 3, "b": 1}, Reach: []string{"built", "generated", "something-dropped"}},
+				{Name: "H10", Label: "longer-words", Quick: P{"k": 2, "b": 3, "minb": 3}, Thorough: P{"k": 2, "b": 4, "minb": 3}, Reach: []string{"built", "generated", "something-dropped"}},
+				{Name: "H10c", Reach: []string{"built", "something-dropped"}},
+				{Name: "H13n", Reach: []string{"refused"}},
+			},
+			Bounds: map[string]string{
+				"H10":     "lists of 1..k words of minb..b symbolic printable-ASCII bytes (quick k=2 with 1..2 and 3-byte words; thorough k=3 single-byte words and k=2 with 3..4-byte words); every iteration order of the maps inside NewWordList; a reversed, a rotated and a first-word-repeated copy of the input; one generated word with a symbolic draw",
+				"H10c":    "concrete non-ASCII, caseless and interior-capital lists (twelve lists), every order",
+				"outside": "more than 3 symbolic words; symbolic non-ASCII words (strings.Title is modelled on ASCII bytes only; non-ASCII lists are concrete)",
+			},
+			Assume: append([]string{"strings.Title on symbolic bytes is modelled for ASCII; on concrete words the native function is used"}, commonAssume...),
+		},
+		{
 			ID: "C11", Sub: "spg", Level: "model_checking",
 			Harnesses: []HSpec{
 				{Name: "H11a", Quick: P{"t": 3, "b": 3}, Thorough: P{"t": 3, "b": 3, "anytype": 1}, Reach: []string{"indexed", "roundtrip", "non-ascii"}},
